@@ -12,3 +12,15 @@ pub uninterp spec fn spec_today() -> int;
 #[verifier::external_body]
 pub fn today_local() -> (r: Date) ensures r@ == spec_today() { unimplemented!() }
 }
+pub mod rw_reader {
+use vstd::prelude::*;
+/// stand-in for util::rw::DescribedReader (a named byte source); reading is not modelled
+#[verifier::external_body]
+pub struct DescribedReader { x: u8 }
+}
+pub mod date_fmt {
+use vstd::prelude::*;
+/// stand-in for util::date::DynDateFormat (time::format_description::OwnedFormatItem)
+#[verifier::external_body]
+pub struct DynDateFormat { x: u8 }
+}
